@@ -33,7 +33,7 @@ ASSUMPTIONS = [
     "the root cgroup itself is never a kill target; prekill hooks are absent (C07)",
     "with recursive=true the configured patterns do not resolve to a cgroup together with one of its ancestors "
     "(such a cgroup is a candidate twice and the trace cannot tell the two attempts apart)",
-    "kernelkill: the fresh read of cgroup.events equals the tick's cached value",
+    "kernelkill: the fresh read of cgroup.events equals the tick's cached value, except in the stale stream (C03, C17): there a childless candidate loses all its processes between the tick's sample and the kill (its cgroup.procs / cgroup.events / pids.current are rewritten at the first kill-accounting xattr aimed at it), the model is not compared and the property clauses decide on the trace: such a victim signalled nobody, is no success, and the next-best candidate has to be tried",
 ]
 TRUSTED = ["harness/kill_interpose.h (libc interposition: kill, setxattr, openat, write, syscall, nanosleep, sd_bus_*)",
            "ext4 xattrs and readdir order of the scratch directory stand in for cgroupfs"]
@@ -334,7 +334,7 @@ def gen_world(rng, tier, prop, o_over=None):
 
 def gen_one(rng, tier, prop, stream):
     """stream: base | zero (pid 0 lines) | nonint (non-integer counter xattrs) | restart (systemd_restart) | meta | swap (a candidate
-    cgroup is replaced at its path while it is being killed)"""
+    cgroup is replaced at its path while it is being killed) | stale (a candidate empties on its own before it is killed)"""
     if stream == "restart":
         ids, tree = gen_world(rng, "quick", prop, dict(depth=1, branch=1))
         args = {"service": rng.choice(["foo.service", "bar.service"]), "post_action_delay": str(rng.choice([0, 1, 2]))}
@@ -420,7 +420,29 @@ def gen_one(rng, tier, prop, stream):
     sc["ticks"] = ticks
     if stream == "swap":
         add_swap(rng, sc, tree)
+    if stream == "stale":
+        add_stale(rng, sc, tree)
     return sc
+
+
+def add_stale(rng, sc, tree):
+    """the stale stream: one tick; one or two childless cgroups below the configured roots lose all their processes on their own
+    between the tick's sample of the tree and the moment oomd turns to them (the harness empties them at the first kill-accounting
+    xattr aimed at them): such a victim yields no signalled process, the next-best candidate has to be tried"""
+    sc["ticks"] = sc["ticks"][:1]
+    a = sc["cfg"]["args"]
+    a.pop("dry", None)
+    if rng.random() < 0.6:
+        a["kernelkill"] = "true"
+    sc.pop("wfail", None)
+    nodes = dict(walk(tree))
+    pool = []
+    for p in resolve_py(tree, a["cgroup"]):
+        for n in [nodes[p]] + [m for _, m in walk(nodes[p])]:
+            if not n["children"] and [x for x in n["procs"] if x != "0"] and n["id"] not in pool:
+                pool.append(n["id"])
+    if pool:
+        sc["empty_at_attempt"] = sorted(rng.sample(pool, min(len(pool), rng.choice([1, 1, 2, 3]))))
 
 
 def add_swap(rng, sc, tree):
